@@ -75,7 +75,7 @@ func parseConstraint(constraintStr string, ecosystem *Ecosystem) (*constraint, e
 		if err != nil {
 			return nil, fmt.Errorf("invalid version in caret constraint: %v", err)
 		}
-		return &constraint{operator: "^", version: parsedVersion, precision: 3}, nil
+		return &constraint{operator: "^", version: parsedVersion, precision: countCoreComponents(version)}, nil
 	}
 
 	// Handle tilde constraints: ~1.2.3, ~1.2, ~1
@@ -144,13 +144,13 @@ func convertWildcardToStandardConstraint(constraintStr string, ecosystem *Ecosys
 	components := strings.Split(baseVersion, ".")
 
 	switch len(components) {
-	case 1: // 1.* is equivalent to ^1.0.0
+	case 1: // 1.* is equivalent to ^1
 		normalizedVersion := normalizePartialVersion(baseVersion)
 		parsedVersion, err := ecosystem.NewVersion(normalizedVersion)
 		if err != nil {
 			return nil, fmt.Errorf("invalid wildcard constraint: %v", err)
 		}
-		return &constraint{operator: "^", version: parsedVersion, precision: 3}, nil
+		return &constraint{operator: "^", version: parsedVersion, precision: 1}, nil
 
 	case 2: // 1.2.* is equivalent to ~1.2.0
 		normalizedVersion := normalizePartialVersion(baseVersion)
@@ -198,7 +198,7 @@ func satisfiesConstraint(version *Version, c *constraint) bool {
 	case "<=":
 		return version.Compare(c.version) <= 0
 	case "^":
-		return satisfiesCaretConstraint(version, c.version)
+		return satisfiesCaretConstraint(version, c.version, c.precision)
 	case "~":
 		return satisfiesTildeConstraint(version, c.version, c.precision)
 	default:
@@ -208,7 +208,7 @@ func satisfiesConstraint(version *Version, c *constraint) bool {
 
 // satisfiesCaretConstraint checks if version satisfies caret constraint (^1.2.3)
 // Caret allows changes that do not modify the left-most non-zero digit
-func satisfiesCaretConstraint(version, constraint *Version) bool {
+func satisfiesCaretConstraint(version, constraint *Version, precision int) bool {
 	// Must be >= constraint version
 	if version.Compare(constraint) < 0 {
 		return false
@@ -219,8 +219,8 @@ func satisfiesCaretConstraint(version, constraint *Version) bool {
 		return false
 	}
 
-	// If major > 0, minor and patch can be anything >= constraint
-	if constraint.major > 0 {
+	// ^1.2.3 := >=1.2.3, <2.0.0 and ^0 := >=0.0.0, <1.0.0 (only the major was written)
+	if constraint.major > 0 || precision == 1 {
 		return true
 	}
 
@@ -229,8 +229,8 @@ func satisfiesCaretConstraint(version, constraint *Version) bool {
 		return false
 	}
 
-	// If major == 0 and minor > 0, patch can be anything >= constraint
-	if constraint.minor > 0 {
+	// ^0.2.3 := >=0.2.3, <0.3.0 and ^0.0 := >=0.0.0, <0.1.0 (no patch was written)
+	if constraint.minor > 0 || precision == 2 {
 		return true
 	}
 
@@ -284,6 +284,15 @@ func normalizePartialVersion(version string) string {
 	}
 
 	return strings.Join(parts[:3], ".") + suffix
+}
+
+// countCoreComponents counts the numeric components of a possibly partial version,
+// ignoring any pre-release or build suffix
+func countCoreComponents(version string) int {
+	if i := strings.IndexAny(version, "-+"); i != -1 {
+		version = version[:i]
+	}
+	return countVersionComponents(version)
 }
 
 // countVersionComponents counts the number of version components in a string
